@@ -61,6 +61,10 @@ func runC16Str(h *H) {
 		default: // exactly at the step
 			rows = [][]byte{c16StrVal(h, mib, 'F'), c16StrVal(h, mib+1, 'G')}
 		}
+		if h.R.Intn(2) == 0 {
+			// values from 64 KiB up (a size class of their own in a writer that treats long values apart) besides the megabyte ones
+			rows = append(rows, c16StrVal(h, 65536+h.R.Intn(3), 'H'), c16StrVal(h, 70000, 'I'), c16StrVal(h, 1+h.R.Intn(200), 'j'))
+		}
 		var src proto.ColStr
 		for _, r := range rows {
 			src.AppendBytes(r)
@@ -108,6 +112,46 @@ func runC16Str(h *H) {
 			used.EncodeColumn(&re)
 			if !bytes.Equal(re.Buf, enc.Buf) {
 				return "FAIL:re-encoding the reused column differs from the bytes it was decoded from"
+			}
+			// and so does sending it through the vectored writer - now, and again after one more row was appended
+			// (the second send holds every row once, with its own value)
+			send := func(c *proto.ColStr) ([]byte, error) {
+				var out bytes.Buffer
+				w := proto.NewWriter(&out, new(proto.Buffer))
+				w.ChainBuffer(func(b *proto.Buffer) { b.PutString("hdr") })
+				c.WriteColumn(w)
+				if _, err := w.Flush(); err != nil {
+					return nil, err
+				}
+				return out.Bytes(), nil
+			}
+			var hdr proto.Buffer
+			hdr.PutString("hdr")
+			sent, err := send(&used)
+			if err != nil {
+				return "FAIL:Flush: " + err.Error()
+			}
+			if !bytes.Equal(sent, append(append([]byte{}, hdr.Buf...), enc.Buf...)) {
+				return "FAIL:WriteColumn+Flush of the reused column differs from its EncodeColumn bytes"
+			}
+			used.AppendBytes([]byte("one more row"))
+			var re2 proto.Buffer
+			used.EncodeColumn(&re2)
+			sent2, err := send(&used)
+			if err != nil {
+				return "FAIL:Flush: " + err.Error()
+			}
+			if !bytes.Equal(sent2, append(append([]byte{}, hdr.Buf...), re2.Buf...)) {
+				return "FAIL:after one more Append, WriteColumn+Flush differs from EncodeColumn (a row sent with another row's length or value)"
+			}
+			var back proto.ColStr
+			if err := back.DecodeColumn(proto.NewReader(bytes.NewReader(sent2[len(hdr.Buf):])), len(rows)+1); err != nil {
+				return "FAIL:what WriteColumn+Flush sent does not decode: " + err.Error()
+			}
+			for k := range rows {
+				if !bytes.Equal(back.RowBytes(k), rows[k]) {
+					return fmt.Sprintf("FAIL:row %d sent through the writer came back as another value (%d bytes for %d)", k, len(back.RowBytes(k)), len(rows[k]))
+				}
 			}
 			return "ok"
 		}()
